@@ -39,7 +39,9 @@ pub mod s5 {
         path: leptos_i18n,
         default: "pa-Arab",
         locales: ["pa-Arab", "pa", "az", "az-Arab", "uz-Arab-AF", "ks", "yi", "dv", "ps", "sd", "ckb", "xx", "FR-ch",
-                  "en_AU", "zh-Hans", "ja", "und", "sr", "sr-Cyrl-RS", "ha-Arab", "ug", "syr", "nqo", "mzn", "gv"],
+                  "en_AU", "zh-Hans", "ja", "und", "sr", "sr-Cyrl-RS", "ha-Arab", "ug", "syr", "nqo", "mzn", "gv",
+                  // no script subtag, and the region (not the language alone) decides the likely script
+                  "pa-PK", "uz-AF", "az-IR", "sd-IN", "ug-KZ"],
         pa_Arab: { sk: { ssk: "w" }, }, pa: { sk: { ssk: "w" }, }, az: { sk: { ssk: "w" }, }, az_Arab: { sk: { ssk: "w" }, },
         uz_Arab_AF: { sk: { ssk: "w" }, }, ks: { sk: { ssk: "w" }, }, yi: { sk: { ssk: "w" }, }, dv: { sk: { ssk: "w" }, },
         ps: { sk: { ssk: "w" }, }, sd: { sk: { ssk: "w" }, }, ckb: { sk: { ssk: "w" }, }, xx: { sk: { ssk: "w" }, },
@@ -47,5 +49,7 @@ pub mod s5 {
         und: { sk: { ssk: "w" }, }, sr: { sk: { ssk: "w" }, }, sr_Cyrl_RS: { sk: { ssk: "w" }, }, ha_Arab: { sk: { ssk: "w" }, },
         ug: { sk: { ssk: "w" }, }, syr: { sk: { ssk: "w" }, }, nqo: { sk: { ssk: "w" }, }, mzn: { sk: { ssk: "w" }, },
         gv: { sk: { ssk: "w" }, },
+        pa_PK: { sk: { ssk: "w" }, }, uz_AF: { sk: { ssk: "w" }, }, az_IR: { sk: { ssk: "w" }, }, sd_IN: { sk: { ssk: "w" }, },
+        ug_KZ: { sk: { ssk: "w" }, },
     }
 }
